@@ -9,6 +9,14 @@
 //          (barrier), each repeating ITS OWN records for a number of rounds while the others do the same, and
 //          every concurrent result must be byte-identical (status + bytes) to the single-threaded reference.
 //          Built as asan (values) and tsan (races that happen not to corrupt a value).
+// mode=hist: PRIOR HISTORY.  Nothing is executed on the main thread.  For every prior of the shared catalogue
+//          (harness/vf_history.hh; index % nshards == shard) plus a seeded sample of two-step histories: a FRESH thread runs
+//          the prior (an earlier, unrelated use of phosg's shared helpers: one formatted string of some length, a run of
+//          5000 short ones, a join / split / fgets of some total size, the escapers, the formatters, hash hex) and then
+//          every record of the case file (a mini-workload of every C11 function, short to long); the fields are logged
+//          pass after pass and the priors that ran are named in <obs>.priors.<shard>.txt ("family TAB name" per line), so
+//          that the Python oracle judges every pass exactly like the main stage.  netloc pairs are compared here
+//          (keys netloc:prior-history:<family>:...).
 // vf::poison_errno() is called directly before every call into phosg.
 //
 // case file:  "C11C" u32 nrecords, then records  u8 op, u8 flag, u32 len, payload[len]
@@ -18,6 +26,7 @@
 #include <map>
 
 #include "c11_exec.hh"
+#include "vf_history.hh"
 
 static FILE* OBS;
 static string obuf;
@@ -459,6 +468,64 @@ static void run_mt(vector<Rec>& recs) {
   C->sample(fmt("%u threads x %u rounds: every thread repeats its own base64/rot13/escape_*/netloc records; each result must equal the single-threaded result (which the Python oracle judged)", NTHREADS, rounds));
 }
 
+// ---- prior-history mode -------------------------------------------------------------------------------
+static void run_hist(vector<Rec>& recs, const string& priors_path) {
+  FILE* pf = fopen(priors_path.c_str(), "wb");
+  if (!pf) {
+    fprintf(stderr, "[harness-error] cannot create %s\n", priors_path.c_str());
+    exit(3);
+  }
+  uint64_t fields = 0, pairs = 0;
+  size_t threads = 0;
+  // Which function makes the thread's FIRST formatted piece after the prior matters for grow-only / exact-fit state, and the
+  // escapers print pieces of two lengths ("%XX": 3, "\\xXX": 4).  Two passes over the catalogue: variant 0 runs the escape_url
+  // records first, variant 1 the escape_controls / escape_quotes records; the other records follow short to long.
+  for (int variant = 0; variant < 2; variant++) {
+    vector<size_t> order;
+    for (int head = 1; head >= 0; head--)
+      for (size_t i = 0; i < recs.size(); i++) {
+        bool first = variant == 0 ? recs[i].op == URL : (recs[i].op == CTRL || recs[i].op == QUOTES);
+        if ((int)first == head) order.push_back(i);
+      }
+    threads += vf::for_each_prior(
+        *C,
+        [&](const vf::Prior& p) {
+          string fam = p.name.find(" then ") != string::npos ? string("two-step") : p.family;
+          fprintf(pf, "%s\t%s\t%d\n", fam.c_str(), p.name.c_str(), variant);
+          fflush(pf);
+          for (size_t i : order) {
+            Rec& rec = recs[i];
+            C->crumb("after prior [%s] (variant %d): record=%zu op=%u flag=%u len=%u payload(hex)=%s", p.name.c_str(), variant, i, rec.op, rec.flag, rec.len, vf::hex(rec.pay, rec.len < 200 ? rec.len : 200).c_str());
+            C->crumb_n("(not inside an enumeration loop)");
+            if (rec.op == NETLOC) {
+              NetlocRec nr = parse_netloc_record(rec.pay, rec.len);
+              vector<Viol> sink;
+              uint64_t n = netloc_roundtrips(nr, sink, false, "");
+              C->evaluations += n;
+              pairs += n;
+              for (auto& v : sink)  // netloc:<law> -> netloc:prior-history:<family>:<law>
+                C->violation("netloc:prior-history:" + fam + v.key.substr(6), v.what, "on a fresh thread after prior [" + p.name + "]: " + v.kase);
+              continue;
+            }
+            vector<Field> out = exec_record(rec.op, rec.flag, rec.pay, rec.len);
+            for (auto& fl : out) {
+              put_field(fl);
+              if (fl.status != 4) C->evaluations++, fields++;
+            }
+            flush_obs(false);
+          }
+          C->cls("prior:" + fam + ":executed");
+        },
+        C->nshards, C->shard, C->qt<size_t>(1, 6));
+  }
+  fclose(pf);
+  C->count("prior_history_fresh_threads", threads);
+  C->count("prior_history_fields_logged", fields);
+  C->count("prior_history_netloc_pairs", pairs);
+  C->count("prior_history_catalogue_size", C->shard == 0 ? vf::priors().size() : 0);
+  C->sample(fmt("%zu fresh threads: one prior each (e.g. a 1024-character string_printf, 5000 short ones, a 70000-byte join), then %zu records of every C11 function; logged for the Python oracle", threads, recs.size()));
+}
+
 int main(int argc, char** argv) {
   vf::Ctx& c = vf::init(argc, argv);
   C = &c;
@@ -468,6 +535,7 @@ int main(int argc, char** argv) {
     return 3;
   }
   bool mt = c.arg("mode") == "mt";
+  bool hist = c.arg("mode") == "hist";
   string path = fmt("%s.%u.bin", base.c_str(), c.shard);
   FILE* f = fopen(path.c_str(), "rb");
   if (!f) {
@@ -519,6 +587,14 @@ int main(int argc, char** argv) {
       case URL:
       case CTRL:
       case QUOTES: {
+        if (hist) {  // executed on fresh threads only, see run_hist
+          if (is_early || is_align) {
+            fprintf(stderr, "[harness-error] EARLY/ALIGN record in a hist case file\n");
+            return 3;
+          }
+          recs.push_back({op, flag, pay, len, {}});
+          break;
+        }
         vector<Field> fields;
         if (is_early) {
           const EarlyRec* er = rec < N_EARLY ? &EARLY_RECS[rec] : nullptr;
@@ -541,22 +617,26 @@ int main(int argc, char** argv) {
         break;
       }
       case SWEEP:
+        if (hist) {
+          fprintf(stderr, "[harness-error] SWEEP record in a hist case file\n");
+          return 3;
+        }
         b64_sweep(flag, pay, len);
         break;
       case DECENUM:
-        if (mt) {
+        if (mt || hist) {
           fprintf(stderr, "[harness-error] DECENUM record in an mt case file\n");
           return 3;
         }
         decenum_case(flag, pay, len);
         break;
       case NETLOC:
-        netloc_case(pay, len, !mt);
-        if (mt) recs.push_back({op, flag, pay, len, {}});
+        if (!hist) netloc_case(pay, len, !mt);
+        if (mt || hist) recs.push_back({op, flag, pay, len, {}});
         break;
       case NETHOSTS:
       case NETENUM:
-        if (mt) {
+        if (mt || hist) {
           fprintf(stderr, "[harness-error] NETHOSTS/NETENUM record in an mt case file\n");
           return 3;
         }
@@ -569,7 +649,8 @@ int main(int argc, char** argv) {
     c.count("records");
     flush_obs(false);
   }
-  if (!mt && nrec >= N_EARLY) {  // netloc part of the early-call probe: identity law on what the static initializer stored
+  if (hist) run_hist(recs, fmt("%s.priors.%u.txt", obase.c_str(), c.shard));
+  if (!mt && !hist && nrec >= N_EARLY) {  // netloc part of the early-call probe: identity law on what the static initializer stored
     c.evaluations++;
     if (g_early.netloc_threw || g_early.rendered != "early.example.org:8080" || g_early.parsed_host != "early.example.org" || g_early.parsed_port != 8080)
       c.violation("early-call:netloc", "render_netloc/parse_netloc called during static initialization did not round-trip (early.example.org, 8080)",
@@ -583,7 +664,7 @@ int main(int argc, char** argv) {
   }
   if (mt)
     run_mt(recs);
-  else
+  else if (!hist)
     c.sample("base64_decode(\"QUJD\") / escape_url / escape_controls / rot13 outputs are logged for the Python oracle; see vf/oracles/c11.py");
   return c.finish();
 }
